@@ -645,4 +645,87 @@ example : (Cache.getValidated Spec.Md5.md5 ⟨true, Generated.IntegritySrc.max_v
     (some [0xd4,0x1d,0x8c,0xd9,0x8f,0x00,0xb2,0x04,0xe9,0x80,0x09,0x98,0xec,0xf8,0x42,0x7e])).2 = .hit [] := by
   decide +kernel
 
+/-! ### the comparison is equality; the bytes handed out are the bytes that were hashed
+(strengthening after seeded changes C07-1c — XOR-fold comparison in `is_valid` — and C07-2c —
+`get_validated` hashing one read and returning a second) -/
+
+/-- `IndexFooter::is_valid` by itself is an EQUALITY test: for a footer record with the full-size
+hash field (8 stored bytes, `footer_hash_bytes ≥ 8` — every footer `ArchiveIndex::parse` /
+`ChunkedArchiveIndex::open` let through since fix 6b0ee35) it answers true iff the 8 stored bytes are
+`H(fields ‖ 0⁸)[..8]`, byte for byte — not a fold (XOR / sum) of the byte differences, not a prefix. -/
+theorem aidx_isvalid_iff (H : Hash) (ft : Bytes) (hl : ft.length = 28) (h8 : 8 ≤ byteAt (ft.take 20) 15) :
+    Aidx.isValid H ft = true ↔ ft.drop 20 = (H (Aidx.hashedOf (ft.take 20))).take 8 :=
+  Proofs.Integrity.Aidx.isValid_iff H ft hl h8
+
+/-- hence two valid footers with the same stored hash and different hashed fields are a collision
+of `H` on its first 8 bytes (no structural hypothesis: `validate_format` / `validate_file_size`
+play no role). -/
+theorem aidx_isvalid_corruption_needs_collision (H : Hash) (ft ft' : Bytes)
+    (hl : ft.length = 28) (hl' : ft'.length = 28)
+    (h8 : 8 ≤ byteAt (ft.take 20) 15) (h8' : 8 ≤ byteAt (ft'.take 20) 15)
+    (hv : Aidx.isValid H ft = true) (hv' : Aidx.isValid H ft' = true)
+    (hst : ft'.drop 20 = ft.drop 20)
+    (hne : Aidx.hashedOf (ft'.take 20) ≠ Aidx.hashedOf (ft.take 20)) :
+    Collision H 8 (Aidx.hashedOf (ft'.take 20)) (Aidx.hashedOf (ft.take 20)) := by
+  have e := (aidx_isvalid_iff H ft hl h8).mp hv
+  have e' := (aidx_isvalid_iff H ft' hl' h8').mp hv'
+  exact ⟨hne, by rw [← e, ← e', hst]⟩
+
+/-- … and ANY change of the stored hash alone — one byte, or several bytes whose differences cancel
+under XOR or addition — is reported invalid. -/
+theorem aidx_isvalid_stored_change_rejected (H : Hash) (ft ft' : Bytes)
+    (hl : ft.length = 28) (hl' : ft'.length = 28) (h8 : 8 ≤ byteAt (ft.take 20) 15)
+    (hv : Aidx.isValid H ft = true) (hf : ft'.take 20 = ft.take 20) (hne : ft'.drop 20 ≠ ft.drop 20) :
+    Aidx.isValid H ft' = false := by
+  have e := (aidx_isvalid_iff H ft hl h8).mp hv
+  cases hv' : Aidx.isValid H ft' with
+  | false => rfl
+  | true =>
+    have e' := (aidx_isvalid_iff H ft' hl' (by rw [hf]; exact h8)).mp hv'
+    rw [hf, ← e] at e'
+    exact absurd e' hne
+
+/-- the `ChecksumMismatch` answer of both entry points is exactly `!is_valid()` of the last 28 bytes
+(what the run's `fvalid` line observes on the real `IndexFooter`). -/
+theorem aidx_checksum_stage_is_isValid (H : Hash) (cs : Bool) (d : Bytes) (h28 : 28 ≤ d.length)
+    (h8 : Proofs.Integrity.Aidx.hbOf d = 8) :
+    Aidx.footerCheck H cs d = .checksum ↔ Aidx.isValid H (d.drop (d.length - 28)) = false :=
+  Proofs.Integrity.Aidx.checksum_iff_isValid H cs d h28 h8
+
+/-- test (one instance): with the constant-zero hash, stored hash bytes `05 05 00…` — two bytes
+changed by the same delta, XOR of the differences 0 — are invalid. -/
+example : Aidx.isValid (fun _ => List.replicate 16 0) (List.replicate 15 0 ++ [8] ++ List.replicate 4 0 ++ [5, 5, 0, 0, 0, 0, 0, 0]) = false := by decide
+
+/-- `content_addressed_get_any_store_sound` (FULL second sentence of the property for
+`ContentAddressedCache::get_validated`): whatever the backing store answers to each individual read
+during the call (`r` is arbitrary: a concurrent writer, a rewritten DiskCache file, a failing disk,
+an expiring entry), the bytes handed out hash to the requested key — they ARE the bytes that were
+hashed, because the call reads once. -/
+theorem content_addressed_get_any_store_sound (H : Hash) (r : Nat → Option Bytes) (c v : Bytes)
+    (h : (Cache.caGetReads H r c).1 = .hit v) : H v = c := by
+  unfold Cache.caGetReads at h
+  split at h
+  · cases h
+  · simp only at h
+    split at h
+    · rename_i hv; simp only [Cache.Out.hit.injEq] at h; rw [← h]; simpa using hv
+    · cases h
+
+/-- the call makes exactly one read of the backing store (the run compares this count with the real
+code's, counted by a harness-owned `AsyncCache` around the real DiskCache). -/
+theorem content_addressed_get_reads_once (H : Hash) (r : Nat → Option Bytes) (c : Bytes) :
+    (Cache.caGetReads H r c).2 = 1 := by
+  unfold Cache.caGetReads; split <;> rfl
+
+/-- the quiescent-store model `caGet` is the instance with a store that answers every read alike. -/
+theorem content_addressed_get_is_single_read (H : Hash) (l : Cache.Layer) (c : Bytes) :
+    Cache.caGet H l c = (Cache.caGetReads H (fun _ => Cache.lookup c l) c).1 := by
+  unfold Cache.caGet Cache.caGetReads; split <;> simp_all
+
+/-- instance for the fault plans the run injects (store answers differently at the n-th read, for
+that read only or from then on). -/
+theorem content_addressed_get_fault_sound (H : Hash) (f : Cache.Fault) (l : Cache.Layer) (c v : Bytes)
+    (h : (Cache.caGetReads H (f.reads (Cache.lookup c l)) c).1 = .hit v) : H v = c :=
+  content_addressed_get_any_store_sound H _ c v h
+
 end Cascette.Props.C07
